@@ -1,4 +1,5 @@
 #!/bin/bash
+VROOT="$(cd "$(dirname "${BASH_SOURCE[0]}")/.." && pwd)"
 # tools/benigncheck.sh <dir with patch.diff> [Cxx...]  (default: all claimed checks)
 # Applies a behaviour-preserving change to a scratch worktree and runs the quick checks against
 # it: every one must stay silent (exit 0). Removes the worktree afterwards.
@@ -10,14 +11,14 @@ W="/tmp/scratch/benign-$$"
 mkdir -p /tmp/scratch
 git -C /repo worktree add --detach "$W" HEAD >/dev/null 2>&1 || exit 2
 H=$(echo "$W" | md5sum | cut -c1-8)
-cleanup() { git -C /repo worktree remove --force "$W" >/dev/null 2>&1; rm -rf "$W" /verif/.build/fitsim-$H /verif/.build/fitsim-race-$H /verif/.build/go-$H.*; }
+cleanup() { git -C /repo worktree remove --force "$W" >/dev/null 2>&1; rm -rf "$W" "$VROOT"/.build/fitsim-$H "$VROOT"/.build/fitsim-race-$H "$VROOT"/.build/go-$H.*; }
 trap cleanup EXIT
 cd "$W" && git apply "$D/patch.diff" || { echo "patch does not apply"; exit 2; }
 go build ./... || { echo "build failed"; exit 2; }
 if go test -vet=off -count=1 ./... >/dev/null 2>&1; then echo "suite: PASS"; else echo "suite: FAIL"; fi
 rc=0
 for P in $PROPS; do
-  out=$(FITSIM_REPO="$W" /verif/check "$P" quick 2>&1); code=$?
+  out=$(FITSIM_REPO="$W" "$VROOT"/check "$P" quick 2>&1); code=$?
   echo "check $P quick: exit $code"
   if [ $code -ne 0 ]; then rc=1; echo "$out" | grep -E '^(violation class|fitsim:)' | head -3 | cut -c1-300; fi
 done
